@@ -52,9 +52,35 @@ def sites():
                                 'old': l, 'new': l[:m.start()] + re.sub(pat, rep, l[m.start():], count=1)})
     return out
 
+STMT = re.compile(r'^\s*[A-Za-z_\*][A-Za-z0-9_\.\*\[\]\(\) ]*?(\s[-+|&]?=\s|\.push\(|\.insert\(|\.extend\(|\.clear\(|\.truncate\(|\.pop\().*;\s*$')
+
+def stmt_sites():
+    """statement deletion: an assignment, compound assignment or container update on one line"""
+    out = []
+    for f in sorted(os.listdir(os.path.join(REPO, 'src'))):
+        if not f.endswith('.rs') or f in ('verif.rs',):
+            continue
+        lines = open(os.path.join(REPO, 'src', f)).read().split('\n')
+        skip_hook = 0
+        for i, l in enumerate(lines):
+            s = l.strip()
+            if s.startswith('#[cfg(test)]') or s.startswith('mod tests') or s.startswith('mod test '):
+                break
+            if 'rspack_sources_verif' in l:
+                skip_hook = 12
+            if skip_hook:
+                skip_hook -= 1
+                continue
+            if s.startswith('//') or s.startswith('let ') or s.startswith('return') or s.startswith('#['):
+                continue
+            if STMT.match(l.split('//')[0]):
+                out.append({'file': 'src/' + f, 'line': i + 1, 'col': 0, 'op': 99, 'old': l,
+                            'new': l[:len(l) - len(l.lstrip())] + '// (statement deleted)'})
+    return out
+
 def gen(n, seed, outp):
     r = random.Random(seed)
-    s = sites()
+    s = stmt_sites() if os.environ.get('MUT_KIND') == 'stmt' else sites()
     # stratify: equal weight per (file, operator class) bucket so that large files do not dominate
     buckets = {}
     for x in s:
